@@ -119,8 +119,22 @@ func (c *coll) String() string {
 }
 
 type fault struct {
-	Kind string // none | fetch | fetch-once | iter
+	Kind string // none | fetch | fetch-once | iter | stop-in-fetch | close-in-fetch | cancel-in-fetch
 	At   int
+}
+
+// stopInFetch: while page At is being fetched the iteration is stopped (Stop / Close / cancellation of the constructor's
+// context, completed before the fetch function returns) and the fetch function hands over its page all the same.
+func (f fault) stopInFetch() byte {
+	switch f.Kind {
+	case "stop-in-fetch":
+		return 'S'
+	case "close-in-fetch":
+		return 'C'
+	case "cancel-in-fetch":
+		return 'X'
+	}
+	return 0
 }
 
 func (f fault) String() string {
@@ -151,6 +165,8 @@ type source struct {
 	events    []event
 	lost      []bool // pages whose iterator could not be created
 	calls     int
+	// stop-in-fetch faults: what to do in the middle of the fetch, once
+	during func()
 }
 
 func (s *source) tick() {
@@ -192,6 +208,11 @@ func (s *source) fetch(link byte, ctx context.Context, from int) (int, error) {
 		e.injected = true
 		s.events = append(s.events, e)
 		return -1, errInjected
+	}
+	if s.f.stopInFetch() != 0 && s.f.At == from+1 && s.during != nil {
+		d := s.during
+		s.during = nil
+		d()
 	}
 	e.ok = true
 	s.events = append(s.events, e)
@@ -464,7 +485,16 @@ func (x *exec) construct() bool {
 		return false
 	}
 	x.st.transitions++
-	if x.f.Kind != "none" && x.f.At == 0 {
+	if op := x.f.stopInFetch(); op != 0 {
+		x.src.during = func() {
+			_ = x.call(op)
+			if x.stopped == 0 {
+				x.stopped = op
+			}
+			x.trace = append(x.trace, '<', op, '>', ' ')
+		}
+	}
+	if x.f.Kind != "none" && x.f.At == 0 && x.f.stopInFetch() == 0 {
 		what := "first-page-fetch"
 		if x.f.Kind == "iter" {
 			what = "first-iterator"
@@ -949,6 +979,7 @@ func faultsFor(c *coll, ctor bool) []fault {
 	}
 	for k := 1; k < len(c.Sizes); k++ {
 		fs = append(fs, fault{"fetch", k}, fault{"fetch-once", k}, fault{"iter", k})
+		fs = append(fs, fault{"stop-in-fetch", k}, fault{"close-in-fetch", k}, fault{"cancel-in-fetch", k})
 	}
 	return fs
 }
@@ -997,6 +1028,9 @@ func plan(thorough bool) (bs []batch, bd bounds) {
 					add(batch{kind: kind, c: c, f: fault{"fetch", k}, honour: true, alpha: "HG", maxLen: bd.LenLong})
 					add(batch{kind: kind, c: c, f: fault{"fetch-once", k}, honour: true, alpha: "HG", maxLen: bd.LenLong})
 					add(batch{kind: kind, c: c, f: fault{"iter", k}, honour: true, alpha: "HG", maxLen: bd.LenLong})
+					for _, sk := range []string{"stop-in-fetch", "close-in-fetch", "cancel-in-fetch"} {
+						add(batch{kind: kind, c: c, f: fault{sk, k}, honour: false, alpha: "HG", maxLen: bd.LenLong})
+					}
 				}
 			}
 			continue
